@@ -317,6 +317,17 @@ mod tests {
         let _ = std::fs::remove_dir_all(&git.dir);
     }
 
+    /// Native demonstration for known finding C40-F12 (used as replay fallback): FAILS while gitoxide accepts what git refuses.
+    #[test]
+    #[ignore = "demonstrates known finding C40-F12: fails while the finding exists; run by the check as replay"]
+    fn known_backslash_unix_examples() {
+        let o = Options { protect_windows: false, protect_hfs: false, protect_ntfs: true };
+        for n in [&b".git\\x"[..], b"git~1\\", b"a\\.git", b".GIT \\hooks"] {
+            assert!(model_git_refuses(n, false, false, true), "git refuses {:?}", n.as_bstr());
+            assert!(real_refuses(n, false, o), "gitoxide must refuse {:?} like git does", n.as_bstr());
+        }
+    }
+
     #[test]
     fn device_model_examples() {
         for (n, want) in [("CON", true), ("con", true), ("Nul.txt", true), ("aux ", true), ("prn:x", true), ("COM1", true), ("LPT9 .", true), ("CONIN$", true),
